@@ -130,7 +130,7 @@ U.fn(P, 'PreProcessor::process_if', requires=['old(self).pwf()', 'old(self).pope
                 name='#ifdef/#ifndef: enabled branch continues, disabled branch is skipped exactly as the reference skips it'),
               C('forall|s: RState| #![trigger final(self).step_ok(s, ret, old(self).ptoks())] old(self).rel_after(s) && (old(self).ptoks()[s.i as int].kind == (if if_kind is Defined { TokenKind::Ifdef } else { TokenKind::Ifndef })) ==> final(self).step_ok(s, ret, old(self).ptoks())', name='reference step')],
      prologue='proof { self.token_stream.lemma_swf(); lemma_run_off_shape_all(self.ptoks()); }',
-     body_proofs=[(r'return self\.eat_until_else_or_endif\(\);', 'proof { let f0 = Frame { taken: false, seen_else: false }; assert(run_off(self.ptoks(), self.pi(), 0, f0) == run_off(self.ptoks(), self.pi(), 0, f0)); }')])
+     body_proofs=[(r'(?:return\s+)?self\.eat_until_else_or_endif\(\)', 'proof { let f0 = Frame { taken: false, seen_else: false }; assert(run_off(self.ptoks(), self.pi(), 0, f0) == run_off(self.ptoks(), self.pi(), 0, f0)); }')])
 U.fn(P, 'PreProcessor::process_else', requires=['old(self).pwf()'], prologue='proof { lemma_run_off_shape_all(self.ptoks()); }',
      ensures=['final(self).same_in(old(self))', 'final(self).same_defs(old(self))',
               C('old(self).popen() >= 1 ==> final(self).off_result(ret, run_off(old(self).ptoks(), old(self).pi(), 0, Frame { taken: true, seen_else: true }), old(self).popen())',
